@@ -41,6 +41,9 @@ class Opaque:
         return "<opaque %s>" % self.what
 
 
+BUILTIN_TYPES = {"str": str, "int": int, "float": float, "bool": bool, "list": list, "dict": dict, "tuple": tuple, "set": set}
+
+
 class Obj:
     """scripted object: attributes in .attrs, methods in .methods (python callables taking evaluated args)"""
 
@@ -316,6 +319,8 @@ class Interp:
                 return NOOP_LOGGER            # logging has no effect on what is extracted: calls on it are no-ops
             if e.id in ("True", "False", "None"):
                 return {"True": True, "False": False, "None": None}[e.id]
+            if e.id in BUILTIN_TYPES:
+                return BUILTIN_TYPES[e.id]        # only meaningful as the second argument of isinstance (any other use is refused where it happens)
             raise Unsupported("line %d: read of unknown name %s" % (e.lineno, e.id))
         if isinstance(e, ast.JoinedStr):
             out = []
@@ -410,6 +415,9 @@ class Interp:
                 "min": min, "max": max, "sum": sum, "enumerate": lambda x: list(enumerate(x)), "zip": lambda *a: list(zip(*a)), "range": range,
                 "dict": dict, "frozenset": frozenset, "reversed": lambda x: list(reversed(x))}
 
+    def _opaque(self, e):
+        raise Unsupported("line %d: isinstance of an opaque value" % e.lineno)
+
     def callexpr(self, e, env):
         f = e.func
         if any(k.arg is None for k in e.keywords):
@@ -429,6 +437,10 @@ class Interp:
             if f.id == "isinstance" and len(args) == 2 and not kwargs:
                 cls = args[1]
                 classes = cls if isinstance(cls, tuple) else (cls,)
+                if all(k in BUILTIN_TYPES.values() for k in classes):
+                    if isinstance(args[0], (Opaque, Obj)):
+                        return False if isinstance(args[0], Obj) else self._opaque(e)
+                    return isinstance(args[0], tuple(classes))
                 if not all(isinstance(k, Obj) and k.name.startswith("class:") for k in classes):
                     raise Unsupported("line %d: isinstance against an unscripted class" % e.lineno)
                 return isinstance(args[0], Obj) and args[0].attrs.get("__class__") in classes
